@@ -150,6 +150,13 @@ _PROCESS_DEPENDENT = [
     '"-".join({"p", "q", "r"}) == "p-q-r"', '("%s" % ({"m", "n"},))[2] == "m"', 'f"{ {1, 2} }" == "{1, 2}"',
     '"abc".__hash__() % 2 == 0', 'str({"k": {"a", "b"}})[8] == "a"', 'sorted({"b", "a"})[0] == "a"', '[*{"u", "v"}] == ["u", "v"]',
     '(*{"u", "v"},) == ("u", "v")', 'dict.fromkeys({"a", "b"}) == {"a": None, "b": None}', 'list(dict.fromkeys({"a", "b"}))[0] == "a"',
+    # strings (or bytes) nested inside the elements: the order still follows the hash seed
+    'tuple({("alpha", 1), ("beta", 2)}) == (("alpha", 1), ("beta", 2))', 'list({("a", 1), ("b", 2), ("c", 3)})[0] == ("a", 1)',
+    'str({("x",), ("y",)}) == "{(\'x\',), (\'y\',)}"', 'list({frozenset({"a"}), frozenset({"b"})})[0] == frozenset({"a"})',
+    'tuple({b"one", b"two"}) == (b"one", b"two")', 'list({(1, ("deep", 2)), (2, ("deeper", 3))})[0][0] == 1',
+    'list({None, "n"})[0] is None', 'tuple({1.5, "s"})[0] == 1.5', 'list({("k", 1): 0, ("l", 2): 1})[0] == ("k", 1)',
+    'str(set(("a", "b"))) == "{\'a\', \'b\'}"', 'list(frozenset(["p", "q"]))[0] == "p"', 'list({"a", "b"} | {"c"})[0] == "a"',
+    'list({"a": 1, "b": 2}.keys() & {"a", "b"})[0] == "a"', 'max({"a": 1}.items() | {("b", 2)}) == ("b", 2)',
 ]
 
 
